@@ -158,6 +158,11 @@ def describe(im):
 def impl_load(case):
     import productmd.images as IM
     im = IM.Images()
+    if case.get("preload"):
+        try:
+            im.loads(json.dumps(case["preload"]))         # the same object is used for a second load
+        except Exception:
+            pass
     try:
         im.loads(json.dumps(case["doc"]))
     except EXC as e:
@@ -181,11 +186,13 @@ def impl_roundtrip(case):
         im.images.setdefault(v, {}).setdefault(a, set())          # e.g. left behind after the last image was discarded
     placed = {v: {a: sorted(({f: getattr(o, f) for f in FIELDS} for o in cell), key=lambda d: str(d["path"]))
                   for a, cell in arches.items()} for v, arches in im.images.items()}
+    from suites.common import snap
+    before = snap(im)
     try:
         text = im.dumps()
     except EXC as e:
         return exc_result(e)
-    api = api_consistency(im, IM.Images, text)
+    api = api_consistency(im, IM.Images, text, before=before)
     if api:
         return ["api-inconsistent", api]
     im2 = IM.Images()
@@ -198,6 +205,24 @@ def impl_roundtrip(case):
         again = ["ok", im2.dumps()]
     except EXC as e:
         again = exc_result(e)
+    # load -> edit ONE listed image -> dump -> load: every other listing keeps its attributes
+    try:
+        im3 = IM.Images()
+        im3.loads(text)
+        cells = [(v, a) for v in sorted(im3.images) for a in sorted(im3.images[v])]
+        if len(cells) >= 2:
+            v0, a0 = cells[0]
+            victim = sorted(im3.images[v0][a0], key=lambda o: o.path)[0]
+            victim.mtime = victim.mtime + 1
+            victim.bootable = not victim.bootable
+            im4 = IM.Images()
+            im4.loads(im3.dumps())
+            f4 = describe(im4)[0]
+            for (v, a) in cells[1:]:
+                if f4.get(v, {}).get(a) != full.get(v, {}).get(a):
+                    return ["edit-leaked", [v0, a0, victim.path], [v, a]]
+    except EXC as e:
+        return ["edit-after-load-failed", exc_result(e)]
     empties = [[v, a] for v, arches in json.loads(text)["payload"]["images"].items() for a, l in arches.items() if not l]
     if empties:
         return ["empty-cell-written", empties]
